@@ -259,3 +259,17 @@ def alpha(expr):
 
 def norm_alpha(expr) -> str:
     return norm(alpha(expr))
+
+
+def sig_stmts(body):
+    """Statements of a block that do something: no `pass`, no bare constants (docstrings), no logging."""
+    out = []
+    for st in body:
+        if isinstance(st, ast.Pass):
+            continue
+        if isinstance(st, ast.Expr) and isinstance(st.value, ast.Constant):
+            continue
+        if isinstance(st, ast.Expr) and isinstance(st.value, ast.Call) and (dotted(st.value.func) or "").split(".")[0] in ("log", "logging", "logger"):
+            continue
+        out.append(st)
+    return out
